@@ -60,7 +60,7 @@ var (
 	encKey = bytes.Repeat([]byte{0x42}, 32)
 
 	tokValueLabels = []string{"bool", "int0", "int1", "int-1", "int53max", "int53min", "float1.5", "float1.0", "float-0", "float-min", "float-max",
-		"str-empty", "str-ascii", "str-utf8", "str-latin1", "bytes-empty", "bytes", "list", "map", "link", "null"}
+		"str-empty", "str-ascii", "str-utf8", "str-latin1", "map-slash", "bytes-empty", "bytes", "list", "map", "link", "null"}
 
 	timeLabels = []string{"absent", "whole", "subsec", "in-past", "2^53-1", "2^53", "y9999", "maxtime", "zero", "epoch", "unix-1", "unix1", "subsec-up", "zone+5h30", "zone-11h-subsec", "dst-repeat-west-1st", "dst-repeat-west-2nd", "dst-repeat-east-1st", "dst-repeat-east-2nd"}
 )
@@ -95,6 +95,8 @@ func tokValue(label string) any {
 		return "abc"
 	case "str-utf8":
 		return "héllo→日本"
+	case "map-slash": // a map whose only key is "/": the shape DAG-JSON reserves for links and bytes
+		return map[string]any{"/": "not-a-cid"}
 	case "str-latin1": // a Go string that is not valid UTF-8 (legacy-encoded text): constructors accept any Go string
 		return "caf\xe9 \xff"
 	case "str-dlgtag": // a value that reads like the type tag of the OTHER token kind
@@ -262,8 +264,8 @@ func argsLabels() []string {
 
 func dlgOptDefs() []optDef {
 	return []optDef{
-		{"sub", []string{"iss", "undef", "other", "root"}}, // "root": built with delegation.Root (subject = issuer)
-		{"aud", []string{"other", "self"}},
+		{"sub", []string{"iss", "undef", "other", "root", "nokey"}}, // "root": built with delegation.Root (subject = issuer); "nokey": a DID that parses but holds no usable key
+		{"aud", []string{"other", "self", "nokey"}},
 		{"cmd", tokCommandLabels},
 		{"pol", []string{"empty", "eq", "nested", "int53max", "int53over", "values"}},
 		{"nbf", timeLabels},
@@ -276,7 +278,7 @@ func dlgOptDefs() []optDef {
 func invOptDefs() []optDef {
 	return []optDef{
 		{"sub", []string{"other", "iss"}},
-		{"aud", []string{"none", "third", "sub"}},
+		{"aud", []string{"none", "third", "sub", "nokey"}},
 		{"cmd", tokCommandLabels},
 		{"args", argsLabels()},
 		{"prf", []string{"1", "0", "3", "odd"}},
@@ -296,6 +298,21 @@ func optDefsOf(kind string) []optDef {
 }
 
 // otherPrincipal returns a DID different from the issuer key.
+// unusableDID is a did:key that did.Parse accepts although no public key can be extracted from it (an Ed25519
+// multicodec in front of 31 key bytes): a principal is an identifier; tokens naming it travel like any other.
+func unusableDID() did.DID {
+	for _, body := range [][]byte{bytes.Repeat([]byte{7}, 31), bytes.Repeat([]byte{7}, 33)} {
+		d, err := did.Parse(didKeyString(uvarint(0xed), body))
+		if err != nil {
+			continue
+		}
+		if _, err := d.PubKey(); err != nil {
+			return d
+		}
+	}
+	panic("harness: no did:key found that parses without holding a usable key")
+}
+
 func otherPrincipal(k *fixtures.Key, n int) did.DID {
 	ks := fixtures.ByAlg("ed25519")
 	d := ks[n%len(ks)].DID
@@ -480,10 +497,15 @@ func BuildToken(spec TokSpec) (any, *fixtures.Key, error) {
 			opts = append(opts, delegation.WithSubject(k.DID))
 		case "other":
 			opts = append(opts, delegation.WithSubject(otherPrincipal(k, 2)))
+		case "nokey":
+			opts = append(opts, delegation.WithSubject(unusableDID()))
 		}
 		aud := otherPrincipal(k, 1)
 		if opt("aud", "other") == "self" {
 			aud = k.DID
+		}
+		if opt("aud", "other") == "nokey" {
+			aud = unusableDID()
 		}
 		if opt("aud", "other") == "rsa8192" { // the longest did:key there is (~1430 characters): a synthetic RSA-8192 public key
 			pk, _, err := syntheticRsaPub(8192, 65537)
@@ -571,6 +593,8 @@ func BuildToken(spec TokSpec) (any, *fixtures.Key, error) {
 		opts = append(opts, invocation.WithAudience(otherPrincipal(k, 3)))
 	case "sub":
 		opts = append(opts, invocation.WithAudience(sub))
+	case "nokey":
+		opts = append(opts, invocation.WithAudience(unusableDID()))
 	}
 	if l := opt("args", "none"); l != "none" {
 		l := l
